@@ -4,6 +4,13 @@ use vharness::*;
 fn subs_of(id: &str) -> Option<Vec<Sub>> {
     Some(match id {
         "C05" => checks::c05::SUBS.to_vec(),
+        "C10" => checks::c10::SUBS.to_vec(),
+        "C17" => checks::c17::SUBS.to_vec(),
+        "C14" => checks::c14::SUBS.to_vec(),
+        "C15" => checks::c15::SUBS.to_vec(),
+        "C08" => checks::c08::SUBS.to_vec(),
+        "C09" => checks::c09::SUBS.to_vec(),
+        "C19" => checks::c19::SUBS.to_vec(),
         "C06" => checks::builder::C06_SUBS.to_vec(),
         "C12" => checks::builder::C12_SUBS.to_vec(),
         "C13" => checks::builder::C13_SUBS.to_vec(),
@@ -106,6 +113,34 @@ fn main() {
         "C13" => {
             checks::builder::c13_run(&ctx);
             checks::builder::c13_finish(&ctx)
+        }
+        "C08" => {
+            checks::c08::run(&ctx);
+            checks::c08::finish(&ctx)
+        }
+        "C09" => {
+            checks::c09::run(&ctx);
+            checks::c09::finish(&ctx)
+        }
+        "C19" => {
+            checks::c19::run(&ctx);
+            checks::c19::finish(&ctx)
+        }
+        "C14" => {
+            checks::c14::run(&ctx);
+            checks::c14::finish(&ctx)
+        }
+        "C15" => {
+            checks::c15::run(&ctx);
+            checks::c15::finish(&ctx)
+        }
+        "C10" => {
+            checks::c10::run(&ctx);
+            checks::c10::finish(&ctx)
+        }
+        "C17" => {
+            checks::c17::run(&ctx);
+            checks::c17::finish(&ctx)
         }
         _ => 2,
     };
